@@ -23,6 +23,8 @@ func TestMain(m *testing.M) { ev.Main(m, "C15") }
 
 type Case struct {
 	Entries []tarx.Entry `json:"entries"`
+	// the slug is a gzip stream of two members, cut in front of this entry (0 = one member)
+	Split int `json:"split,omitempty"`
 }
 
 var subInterp = ev.Register("interpret", checkInterpret)
@@ -76,7 +78,7 @@ func checkInterpret(c Case) error {
 	if err := os.Mkdir(dst, 0755); err != nil {
 		return fmt.Errorf("harness: %v", err)
 	}
-	data, err := tarx.Build(c.Entries, nil)
+	data, err := tarx.BuildSplit(c.Entries, nil, c.Split)
 	if err != nil {
 		ev.Label("archive-not-buildable")
 		return nil
@@ -343,7 +345,11 @@ func genEntry(unpriv bool) *rapid.Generator[tarx.Entry] {
 func TestPropInterpret(t *testing.T) {
 	unpriv := unprivileged()
 	ev.Check(t, subInterp, func(t *rapid.T) Case {
-		return Case{Entries: rapid.SliceOfN(genEntry(unpriv), 1, 12).Draw(t, "entries")}
+		c := Case{Entries: rapid.SliceOfN(genEntry(unpriv), 1, 12).Draw(t, "entries")}
+		if len(c.Entries) > 1 && rapid.IntRange(0, 5).Draw(t, "split?") == 0 {
+			c.Split = rapid.IntRange(1, len(c.Entries)-1).Draw(t, "split")
+		}
+		return c
 	})
 }
 
